@@ -59,6 +59,7 @@ meta['detected_by'] = det
 meta['status'] = 'caught' if det.get(prop) else ('caught-by-other' if det else 'missed')
 notes = open(os.path.join(src, 'notes.md')).read() if os.path.exists(os.path.join(src, 'notes.md')) else ''
 meta['needs_to_manifest'] = ''
+meta['summary'] = ''
 meta['what_was_run'] = {
     'confirm': 'tools/confirm_seed.py in a scratch worktree of /repo HEAD: (1) patch.diff + demo.diff applied, '
                '`cargo test --workspace --offline --no-fail-fast`: all baseline tests pass, demo test(s) fail; '
@@ -68,8 +69,23 @@ meta['what_was_run'] = {
 }
 dst = os.path.join(V, 'seeded', sid)
 os.makedirs(dst, exist_ok=True)
+# keep the outcome of the very first triage run (before any check was strengthened) and hand-written annotations
+prev = {}
+if os.path.exists(os.path.join(dst, 'meta.json')):
+    prev = json.load(open(os.path.join(dst, 'meta.json')))
+meta['first_run'] = prev.get('first_run') or {'status': meta['status'], 'detected_by': det}
+if conf is None and prev.get('confirm'):
+    meta['confirm'] = prev['confirm']
+ann_file = os.path.join(V, 'seeded', 'ANNOTATIONS.json')
+if os.path.exists(ann_file):
+    ann = json.load(open(ann_file)).get(sid, {})
+    for k in ('summary', 'needs_to_manifest'):
+        if ann.get(k):
+            meta[k] = ann[k]
+    if ann.get('first_run'):
+        meta['first_run'] = {'status': ann['first_run'], 'note': ann.get('first_run_note', '')}
 for f in ('patch.diff', 'demo.diff', 'notes.md'):
-    if os.path.exists(os.path.join(src, f)):
+    if os.path.exists(os.path.join(src, f)) and os.path.abspath(src) != os.path.abspath(dst):
         shutil.copy(os.path.join(src, f), os.path.join(dst, f))
 json.dump(meta, open(os.path.join(dst, 'meta.json'), 'w'), indent=1)
 print(sid, meta['status'])
